@@ -41,6 +41,13 @@ CHECKS = {
    design_ref='DESIGN.md section 6 / C05',
    technique='Coq-verified checker applied to implementation outputs + proof of the invariant on the model + correspondence',
    note=TB + " Partial: that the model's own peer list tiles the address space (elementary partition) is established by the verified checker on every run, not yet by a theorem."),
+ 'C14': dict(
+   text="Machine-checked proof (Coq) of the additivity, locality and spelling-equivalence laws on the pointwise NetworkPolicy semantics (which the computed report equals on every point by C01): adding a rule in a governed "
+        "direction or a policy on already-governed pods never removes, a policy on ungoverned pods never adds, unselected pairs are unchanged; matchLabels = single-value In, range split, CIDR halves, policy split, explicit = defaulted policyTypes. "
+        "On the implementation, (world, typed edit) pairs are analysed by the real `list` and the two reports related pointwise by a Coq-evaluated checker (<=, >=, =, = outside the selected pods).",
+   design_ref='DESIGN.md section 6 / C14',
+   technique='Coq proof of the laws on the Spec (transferred by the C01 refinement) + metamorphic relation between two implementation runs decided by a Coq checker',
+   note=TB + " The oracle on the implementation side is the implementation itself (two runs); the pointwise checker compares on all workloads and the lower end points of both IP partitions."),
  'C15': dict(
    text="Machine-checked proof (Coq) over ALL finite histories of InsertObject / DeleteObject / SetResources / ClearResources / CheckIfAllowed on the engine state machine (Model/Engine.v, with the owner-keyed verdict cache): "
         "an invariant (every cache entry equals the cache-less verdict of the current objects) is kept by every operation, hence every answer equals the fresh answer; ANPs inserted in any order yield the same applied list; deletes of absent objects are no-ops. "
